@@ -1679,6 +1679,7 @@ fn run_parse_case(id: &str, fields: &[Sx]) -> Result<String, String> {
         Some(Ok((lexer, ctx, mut parser))) => {
             if fmt_on {
                 guarded_fmt(&fmt_panicked, || format!("{lexer}"));
+                guarded_fmt(&fmt_panicked, || format!("{lexer:?}"));
             }
             let mut cur = Some(lexer);
             for _ in 0..runs {
@@ -1708,6 +1709,7 @@ fn run_parse_case(id: &str, fields: &[Sx]) -> Result<String, String> {
                         out.push_str(&format!(" (run {obs})"));
                         if fmt_on {
                             guarded_fmt(&fmt_panicked, || format!("{}", succ.lexer));
+                            guarded_fmt(&fmt_panicked, || format!("{:?}", succ.lexer));
                         }
                         cur = Some(succ.lexer);
                     }
